@@ -126,7 +126,7 @@ func (r Raw) Value() string {
 		if err != nil {
 			return hex.EncodeToString(r.Bytes)
 		}
-		return t.Format("2006-01-02T15:04:05Z")
+		return t.UTC().Format("2006-01-02T15:04:05Z")
 
 	default:
 		return hex.EncodeToString(r.Bytes)
